@@ -64,6 +64,8 @@ def main():
         sh('git -C /repo checkout -- .')
     sigs = [l.strip() for l in c.stdout.splitlines() if l.startswith('VIOLATION') or l.strip().startswith('signature=')]
     detected = c.returncode == 1
+    if not ran and os.path.exists(os.path.join(dst, 'meta.json')):
+        ran = json.load(open(os.path.join(dst, 'meta.json'))).get('confirmed', [])
     meta.update({'property': prop, 'confirmed': ran, 'check_cmd': './check %s --tier %s' % (prop, tier),
                  'check_rc': c.returncode, 'detected': detected, 'signatures': [s[:300] for s in sigs][:12]})
     json.dump(meta, open(os.path.join(dst, 'meta.json'), 'w'), indent=1)
